@@ -32,90 +32,134 @@ def all_same(values, what):
 def lean_str(s):
     return '"' + s.replace('\\', '\\\\').replace('"', '\\"') + '"'
 
-def main():
-    g = []
-    notes = []
-    # --- 30-day window
-    m = one("crates/cgt-core/src/matcher/bed_and_breakfast.rs", r"const BNB_WINDOW_DAYS: i64 = (\d+);", what="BNB_WINDOW_DAYS")
-    g.append(f"def bnbWindowDays : Int := {m.group(1)}")
-    # the comparison that uses it: `days_diff > BNB_WINDOW_DAYS` breaks, `days_diff <= 0` skips
-    one("crates/cgt-core/src/matcher/bed_and_breakfast.rs", r"if days_diff > BNB_WINDOW_DAYS \{\s*break;", what="window upper test `days_diff > BNB_WINDOW_DAYS`")
-    one("crates/cgt-core/src/matcher/bed_and_breakfast.rs", r"if days_diff <= 0 \{\s*continue;", what="window lower test `days_diff <= 0`")
-    # --- tax year
-    models = "crates/cgt-core/src/models.rs"
-    tmin = one(models, r"const MIN_TAX_YEAR: u16 = (\d+);").group(1)
-    tmax = one(models, r"const MAX_TAX_YEAR: u16 = (\d+);").group(1)
-    g.append(f"def taxYearMin : Int := {tmin}")
-    g.append(f"def taxYearMax : Int := {tmax}")
-    m = one(models, r"NaiveDate::from_ymd_opt\(date\.year\(\), (\d+), (\d+)\)", what="tax-year boundary in TaxPeriod::from_date")
-    bm, bd = int(m.group(1)), int(m.group(2))
-    one(models, r"let start_year = if date < tax_year_boundary \{\s*date\.year\(\) - 1\s*\} else \{\s*date\.year\(\)\s*\};", what="from_date comparison")
-    calc = "crates/cgt-core/src/calculator.rs"
-    m1 = one(calc, r"from_ymd_opt\(tax_year_start, (\d+), (\d+)\)", what="year filter start")
-    m2 = one(calc, r"from_ymd_opt\(tax_year_start \+ 1, (\d+), (\d+)\)", what="year filter end")
-    all_same([(bm, bd), (int(m1.group(1)), int(m1.group(2)))], "tax-year start (models.rs vs calculator.rs)")
-    if (int(m2.group(1)), int(m2.group(2))) != (bm, bd - 1):
-        raise Missing(f"calculator.rs: year filter ends {m2.group(1)}/{m2.group(2)}, expected the day before {bm}/{bd}")
-    one(calc, r"m\.disposal_date >= start_date && m\.disposal_date <= end_date", what="inclusive year filter")
-    g.append(f"def taxYearStartMonth : Int := {bm}")
-    g.append(f"def taxYearStartDay : Int := {bd}")
-    # MCP explain_matching's own month/day test
-    srv = "crates/cgt-mcp/src/server.rs"
-    m = one(srv, r"let year = if date\.month\(\) < (\d+)\s*\|\|\s*\(date\.month\(\) == (\d+) && date\.day\(\) < (\d+)\)\s*\{\s*date\.year\(\) - 1\s*\} else \{\s*date\.year\(\)\s*\};", what="explain_matching tax-year test")
-    g.append(f"def mcpYearMonth : Int := {m.group(1)}")
-    g.append(f"def mcpYearMonth2 : Int := {m.group(2)}")
-    g.append(f"def mcpYearDay : Int := {m.group(3)}")
-    # --- disposal rounding
-    dps = re.findall(r"\.round_dp\((\d+)\)", read(calc))
-    if len(dps) != 2:
-        raise Missing(f"calculator.rs: expected two round_dp sites in group_matches_into_disposals, found {dps}")
-    g.append(f"def disposalRoundDp : Nat := {all_same(dps, 'disposal round_dp')}")
-    # --- exemptions table
-    toml = read("crates/cgt-core/data/config.toml")
-    if "[exemptions]" not in toml:
-        raise Missing("config.toml: [exemptions] table not found")
-    ex = re.findall(r'(?m)^"(\d{4})"\s*=\s*(\d+)\s*$', toml.split("[exemptions]", 1)[1])
-    if not ex:
-        raise Missing("config.toml: no exemption rows")
-    g.append("def exemptions : List (Int × Rat) := [" + ", ".join(f"({y}, {v})" for y, v in ex) + "]")
-    # get_exemption: absent year is an error, never a default
-    one("crates/cgt-core/src/config.rs", r"\.get\(&year\)\s*\.copied\(\)\s*\.ok_or\(CgtError::UnsupportedExemptionYear\(year\)\)", what="get_exemption")
-    # --- money rounding of the front-ends
-    m = re.findall(r"round_dp_with_strategy\(\s*(\d+),\s*(?:rust_decimal::)?RoundingStrategy::(\w+)\s*\)|\.round_dp\((\d+)\)", read(models).split("mod decimal_money", 1)[1].split("/// Deserialize Operation", 1)[0])
-    if len(m) != 2:
-        raise Missing(f"models.rs: decimal_money: expected two rounding sites, found {m}")
-    sites = [(a or c, b or "MidpointNearestEven") for a, b, c in m]
-    dp, strat = all_same(sites, "decimal_money rounding")
-    g.append(f"def jsonMoneyDp : Nat := {dp}")
-    g.append(f"def jsonMoneyHalfAway : Bool := {'true' if strat == 'MidpointAwayFromZero' else 'false'}")
-    fmt = read("crates/cgt-format/src/lib.rs")
-    m = re.search(r"pub fn format_gbp\(value: Decimal\) -> String \{\s*format_with_symbol_and_precision\(value, '£', (\d+)\)", fmt)
-    if not m:
-        raise Missing("cgt-format/src/lib.rs: format_gbp anchor not found")
-    g.append(f"def displayMoneyDp : Nat := {m.group(1)}")
-    strats = re.findall(r"round_dp_with_strategy\(\w+, RoundingStrategy::(\w+)\)", fmt)
-    if len(strats) < 2:
-        raise Missing(f"cgt-format/src/lib.rs: rounding strategy sites not found ({strats})")
-    strat = all_same(strats, "cgt-format rounding strategy")
-    g.append(f"def displayMoneyHalfAway : Bool := {'true' if strat == 'MidpointAwayFromZero' else 'false'}")
-    # --- RSU look-back
-    aw = "crates/cgt-converter/src/schwab/awards.rs"
-    m = one(aw, r"for days_back in (\d+)\.\.=(\d+)", what="RSU look-back loop")
-    g.append(f"def rsuLookbackFrom : Int := {m.group(1)}")
-    g.append(f"def rsuLookbackDays : Int := {m.group(2)}")
+GROUPS = {}   # group name -> list of Lean definitions
+ERRORS = {}   # group name -> message
 
-    body = "-- GENERATED by tools/extract.py from /repo sources on every run. Do not edit.\nnamespace Cgt\n" + "\n".join(g) + "\nend Cgt\n"
+def group(name):
+    def deco(fn):
+        try:
+            GROUPS[name] = fn()
+        except Missing as e:
+            ERRORS[name] = str(e)
+        return fn
+    return deco
+
+def main():
+    models = "crates/cgt-core/src/models.rs"
+    calc = "crates/cgt-core/src/calculator.rs"
+    bnb = "crates/cgt-core/src/matcher/bed_and_breakfast.rs"
+
+    @group("window")
+    def _():
+        m = one(bnb, r"const BNB_WINDOW_DAYS: i64 = (\d+);", what="BNB_WINDOW_DAYS")
+        # the comparisons that use it: `days_diff > BNB_WINDOW_DAYS` breaks, `days_diff <= 0` skips
+        one(bnb, r"if days_diff > BNB_WINDOW_DAYS \{\s*break;", what="window upper test `days_diff > BNB_WINDOW_DAYS`")
+        one(bnb, r"if days_diff <= 0 \{\s*continue;", what="window lower test `days_diff <= 0`")
+        return [f"def bnbWindowDays : Int := {m.group(1)}"]
+
+    @group("taxyear")
+    def _():
+        tmin = one(models, r"const MIN_TAX_YEAR: u16 = (\d+);").group(1)
+        tmax = one(models, r"const MAX_TAX_YEAR: u16 = (\d+);").group(1)
+        m = one(models, r"NaiveDate::from_ymd_opt\(date\.year\(\), (\d+), (\d+)\)", what="tax-year boundary in TaxPeriod::from_date")
+        bm, bd = int(m.group(1)), int(m.group(2))
+        one(models, r"let start_year = if date < tax_year_boundary \{\s*date\.year\(\) - 1\s*\} else \{\s*date\.year\(\)\s*\};", what="from_date comparison")
+        m1 = one(calc, r"from_ymd_opt\(tax_year_start, (\d+), (\d+)\)", what="year filter start")
+        m2 = one(calc, r"from_ymd_opt\(tax_year_start \+ 1, (\d+), (\d+)\)", what="year filter end")
+        all_same([(bm, bd), (int(m1.group(1)), int(m1.group(2)))], "tax-year start (models.rs vs calculator.rs)")
+        if (int(m2.group(1)), int(m2.group(2))) != (bm, bd - 1):
+            raise Missing(f"calculator.rs: year filter ends {m2.group(1)}/{m2.group(2)}, expected the day before {bm}/{bd}")
+        one(calc, r"m\.disposal_date >= start_date && m\.disposal_date <= end_date", what="inclusive year filter `>= start_date && <= end_date`")
+        return [f"def taxYearMin : Int := {tmin}", f"def taxYearMax : Int := {tmax}",
+                f"def taxYearStartMonth : Int := {bm}", f"def taxYearStartDay : Int := {bd}"]
+
+    @group("mcp_year")
+    def _():
+        srv = "crates/cgt-mcp/src/server.rs"
+        m = one(srv, r"let year = if date\.month\(\) < (\d+)\s*\|\|\s*\(date\.month\(\) == (\d+) && date\.day\(\) < (\d+)\)\s*\{\s*date\.year\(\) - 1\s*\} else \{\s*date\.year\(\)\s*\};", what="explain_matching tax-year test")
+        return [f"def mcpYearMonth : Int := {m.group(1)}", f"def mcpYearMonth2 : Int := {m.group(2)}", f"def mcpYearDay : Int := {m.group(3)}"]
+
+    @group("disposal_round")
+    def _():
+        dps = re.findall(r"\.round_dp\((\d+)\)", read(calc))
+        if len(dps) != 2:
+            raise Missing(f"calculator.rs: expected two round_dp sites in group_matches_into_disposals, found {dps}")
+        return [f"def disposalRoundDp : Nat := {all_same(dps, 'disposal round_dp')}"]
+
+    @group("exemptions")
+    def _():
+        toml = read("crates/cgt-core/data/config.toml")
+        if "[exemptions]" not in toml:
+            raise Missing("config.toml: [exemptions] table not found")
+        ex = re.findall(r'(?m)^"(\d{4})"\s*=\s*(\d+)\s*$', toml.split("[exemptions]", 1)[1])
+        if not ex:
+            raise Missing("config.toml: no exemption rows")
+        # get_exemption: absent year is an error, never a default
+        one("crates/cgt-core/src/config.rs", r"\.get\(&year\)\s*\.copied\(\)\s*\.ok_or\(CgtError::UnsupportedExemptionYear\(year\)\)", what="get_exemption")
+        return ["def exemptions : List (Int × Rat) := [" + ", ".join(f"({y}, {v})" for y, v in ex) + "]"]
+
+    @group("money_round")
+    def _():
+        m = re.findall(r"round_dp_with_strategy\(\s*(\d+),\s*(?:rust_decimal::)?RoundingStrategy::(\w+)\s*\)|\.round_dp\((\d+)\)", read(models).split("mod decimal_money", 1)[1].split("/// Deserialize Operation", 1)[0])
+        if len(m) != 2:
+            raise Missing(f"models.rs: decimal_money: expected two rounding sites, found {m}")
+        sites = [(a or c, b or "MidpointNearestEven") for a, b, c in m]
+        dp, strat = all_same(sites, "decimal_money rounding")
+        fmt = read("crates/cgt-format/src/lib.rs")
+        m2 = re.search(r"pub fn format_gbp\(value: Decimal\) -> String \{\s*format_with_symbol_and_precision\(value, '£', (\d+)\)", fmt)
+        if not m2:
+            raise Missing("cgt-format/src/lib.rs: format_gbp anchor not found")
+        strats = re.findall(r"round_dp_with_strategy\(\w+, RoundingStrategy::(\w+)\)", fmt)
+        if len(strats) < 2:
+            raise Missing(f"cgt-format/src/lib.rs: rounding strategy sites not found ({strats})")
+        strat2 = all_same(strats, "cgt-format rounding strategy")
+        return [f"def jsonMoneyDp : Nat := {dp}",
+                f"def jsonMoneyHalfAway : Bool := {'true' if strat == 'MidpointAwayFromZero' else 'false'}",
+                f"def displayMoneyDp : Nat := {m2.group(1)}",
+                f"def displayMoneyHalfAway : Bool := {'true' if strat2 == 'MidpointAwayFromZero' else 'false'}"]
+
+    @group("rsu")
+    def _():
+        aw = "crates/cgt-converter/src/schwab/awards.rs"
+        m = one(aw, r"for days_back in (\d+)\.\.=(\d+)", what="RSU look-back loop")
+        return [f"def rsuLookbackFrom : Int := {m.group(1)}", f"def rsuLookbackDays : Int := {m.group(2)}"]
+
+    # a group whose anchor is missing keeps the definitions of the last generated file, and is
+    # reported in build/extract_status.json; ./check fails the properties that depend on it
     old = None
     try:
         old = open(OUT, encoding="utf-8").read()
     except OSError:
         pass
+    order = ["window", "taxyear", "mcp_year", "disposal_round", "exemptions", "money_round", "rsu"]
+    lines = []
+    for gname in order:
+        if gname in GROUPS:
+            lines.append(f"-- group {gname}")
+            lines.extend(GROUPS[gname])
+        else:
+            kept = []
+            if old:
+                mm = re.search(r"-- group " + gname + r"\n((?:def .*\n)+)", old)
+                if mm:
+                    kept = mm.group(1).rstrip("\n").split("\n")
+            if not kept:
+                print(f"extract: FAILED: group {gname}: {ERRORS[gname]} (and no previous value to keep)", file=sys.stderr)
+                sys.exit(2)
+            lines.append(f"-- group {gname}")
+            lines.extend(kept)
+    body = "-- GENERATED by tools/extract.py from /repo sources on every run. Do not edit.\nnamespace Cgt\n" + "\n".join(lines) + "\nend Cgt\n"
+    import json
+    os.makedirs("/verif/build", exist_ok=True)
+    json.dump({"failed": ERRORS}, open("/verif/build/extract_status.json", "w"), indent=1)
     if old != body:
         with open(OUT, "w", encoding="utf-8") as f:
             f.write(body)
-        print(f"extract: wrote {OUT} ({len(g)} constants)")
+        print(f"extract: wrote {OUT} ({len(GROUPS)} groups ok, {len(ERRORS)} failed)")
     else:
-        print(f"extract: {OUT} up to date ({len(g)} constants)")
+        print(f"extract: {OUT} up to date ({len(GROUPS)} groups ok, {len(ERRORS)} failed)")
+    for g, e in ERRORS.items():
+        print(f"extract: group {g} FAILED: {e}", file=sys.stderr)
 
 if __name__ == "__main__":
     try:
